@@ -5,6 +5,7 @@ pub mod c02;
 pub mod c03;
 pub mod c04;
 pub mod c06;
+pub mod c07;
 pub mod c12;
 pub mod c13;
 pub mod c14;
@@ -19,6 +20,8 @@ pub fn lookup(id: &str) -> Option<fn(&Report, bool) -> Evidence> {
         "C03" => c03::run,
         "C04" => c04::run,
         "C06" => c06::run,
+        "C07" => c07::run,
+        "C08" => c07::run_c08,
         "C12" => c12::run,
         "C13" => c13::run,
         "C14" => c14::run,
